@@ -16,7 +16,8 @@ RULE = ("abstract molecules (random trees of 1-40 atoms + ring edges, 1-3 fragme
         "non-aromatic bond. non-trivial = >= 4 atoms and a ring closure or a branch; distinct = distinct (table, SMILES)")
 ASSUMPTIONS = ["ground truth comes from the generator (R3), for corpus molecules from the independent reader R1",
                "ring spans and branch lengths >= 16^3 are outside the stated domain and are not generated here (C16 probes the boundary)",
-               "on bonds that were aromatic in the input only 'order is 1 or 2' is asserted here (C05 judges the assignment)"]
+               "on bonds that were aromatic in the input only 'order is 1 or 2' is asserted here (C05 judges the assignment); the hydrogen "
+               "count of an unbracketed aromatic carbon is 3 minus its sigma bond-order sum (OpenSMILES)"]
 SELFTESTS = [refsmiles.selftest, GM.selftest]
 
 
@@ -46,6 +47,21 @@ def compare(case, rt):
                 return Fail("aromatic_bond_order", bond=k, got=g, smiles=case["smiles"][:300], out=rt.smiles_out[:300])
         elif g != o:
             return Fail("bond_order", bond=k, want=o, got=g, smiles=case["smiles"][:300], selfies=rt.selfies[:300], out=rt.smiles_out[:300])
+    # hydrogen count of aromatic carbons written without brackets: 'c' carries 3 - (sum of its bond orders, aromatic
+    # bonds counted once) hydrogens; the output atom 'C' carries 4 - (sum of its bond orders)  (OpenSMILES organic subset).
+    # Non-aromatic organic-subset atoms need no such comparison: their bond orders were compared above.
+    sum_in, sum_out = {}, {}
+    for (i, j), o in want.items():
+        for x in (i, j):
+            sum_in[x] = sum_in.get(x, 0) + (1 if o == 1.5 else o)
+            sum_out[x] = sum_out.get(x, 0) + m.bonds[(i, j)]
+    for i, a in enumerate(t["atoms"]):
+        if a["arom"] and a["h"] is None and a["el"].upper() == "C" and not a["charge"]:
+            h_in = max(0, 3 - sum_in.get(i, 0))
+            b = m.atoms[i]
+            h_out = b["h"] if b["h"] is not None else max(0, 4 - sum_out.get(i, 0))
+            if h_in != h_out:
+                return Fail("aromatic_carbon_hcount", index=i, want=h_in, got=h_out, smiles=case["smiles"][:300], out=rt.smiles_out[:300])
     return None
 
 
